@@ -656,13 +656,33 @@ func (cfg *Config) cmdSubst(cs *syntax.CmdSubst) (string, error) {
 func (cfg *Config) wordFields(wps []syntax.WordPart) ([][]fieldPart, error) {
 	fields := cfg.fieldsAlloc[:0]
 	curField := cfg.fieldAlloc[:0]
-	allowEmpty := false
+	// wsDelim records that the last field was ended by IFS whitespace alone,
+	// so that a non-whitespace IFS character right after it belongs to the
+	// same delimiter rather than delimiting an empty field.
+	wsDelim := false
 	flush := func() {
 		if len(curField) == 0 {
 			return
 		}
 		fields = append(fields, curField)
 		curField = nil
+	}
+	// delimit handles an IFS character resulting from an unquoted expansion.
+	// IFS whitespace only ends the current field, if there is one.
+	// Any other IFS character, along with its adjacent IFS whitespace,
+	// delimits a field even if that field is empty.
+	delimit := func(r rune) {
+		ws := cfg.ifsWhitespace(r)
+		switch {
+		case len(curField) > 0:
+			flush()
+			wsDelim = ws
+		case ws:
+		case wsDelim:
+			wsDelim = false
+		default:
+			fields = append(fields, nil)
+		}
 	}
 	splitAdd := func(val string) {
 		fieldStart := -1
@@ -672,7 +692,7 @@ func (cfg *Config) wordFields(wps []syntax.WordPart) ([][]fieldPart, error) {
 					curField = append(curField, fieldPart{val: val[fieldStart:i]})
 					fieldStart = -1
 				}
-				flush()
+				delimit(r)
 			} else {
 				if fieldStart < 0 { // starting a new field
 					fieldStart = i
@@ -712,7 +732,6 @@ func (cfg *Config) wordFields(wps []syntax.WordPart) ([][]fieldPart, error) {
 			}
 			curField = append(curField, fieldPart{val: s})
 		case *syntax.SglQuoted:
-			allowEmpty = true
 			fp := fieldPart{quote: quoteSingle, val: wp.Value}
 			if wp.Dollar {
 				fp.val, _, _ = Format(cfg, fp.val, nil)
@@ -739,10 +758,13 @@ func (cfg *Config) wordFields(wps []syntax.WordPart) ([][]fieldPart, error) {
 					continue
 				}
 			}
-			allowEmpty = true
 			wfield, err := cfg.wordField(wp.Parts, quoteDouble)
 			if err != nil {
 				return nil, err
+			}
+			if len(wfield) == 0 {
+				// "" is part of a field even though it is empty.
+				curField = append(curField, fieldPart{quote: quoteDouble})
 			}
 			for _, part := range wfield {
 				part.quote = quoteDouble
@@ -750,12 +772,18 @@ func (cfg *Config) wordFields(wps []syntax.WordPart) ([][]fieldPart, error) {
 			}
 		case *syntax.ParamExp:
 			if elems, ok := cfg.unquotedElemFields(wp); ok {
-				// Unquoted "*" or "@" expansions produce one field per
-				// element; joining and re-splitting them would lose
-				// fields when IFS is empty.
+				// Unquoted "*" or "@" expansions split as if the elements
+				// were joined by the first character of IFS. If IFS is empty,
+				// each non-empty element is a field, which joining and
+				// re-splitting would lose.
+				sep, _ := utf8.DecodeRuneInString(cfg.ifs)
 				for j, elem := range elems {
 					if j > 0 {
-						flush()
+						if cfg.ifs == "" {
+							flush()
+						} else {
+							delimit(sep)
+						}
 					}
 					splitAdd(elem)
 				}
@@ -801,9 +829,6 @@ func (cfg *Config) wordFields(wps []syntax.WordPart) ([][]fieldPart, error) {
 		}
 	}
 	flush()
-	if allowEmpty && len(fields) == 0 {
-		fields = append(fields, curField)
-	}
 	return fields, nil
 }
 
@@ -1188,7 +1213,9 @@ func (cfg *Config) globDir(base, dir string, matcher func(string) bool, wantDir 
 }
 
 // ReadFields splits and returns n fields from s, like the "read" shell builtin.
-// If raw is set, backslash escape sequences are not interpreted.
+// If there are more than n fields, the last returned field holds the rest of s
+// without its trailing IFS whitespace. If n is zero or negative, all fields are
+// returned. If raw is set, backslash escape sequences are not interpreted.
 //
 // The config specifies shell expansion options; nil behaves the same as an
 // empty config.
@@ -1199,60 +1226,70 @@ func ReadFields(cfg *Config, s string, n int, raw bool) []string {
 	}
 	var fpos []pos
 
-	runes := make([]rune, 0, len(s))
+	// buf holds s without the backslashes that escape other characters.
+	buf := make([]byte, 0, len(s))
+	// trimEnd is the length of buf without any trailing IFS whitespace.
+	// It is only used if the last field takes the rest of the line.
+	trimEnd := 0
 	infield := false
+	// wsDelim records that the last field was ended by IFS whitespace alone,
+	// so that a non-whitespace IFS character right after it belongs to the
+	// same delimiter rather than delimiting an empty field.
+	wsDelim := false
 	esc := false
-	for _, r := range s {
-		if infield {
-			if cfg.ifsRune(r) && (raw || !esc) {
-				fpos[len(fpos)-1].end = len(runes)
-				infield = false
-			}
-		} else {
-			if !cfg.ifsRune(r) && (raw || !esc) {
-				fpos = append(fpos, pos{start: len(runes), end: -1})
-				infield = true
-			}
-		}
-		if r == '\\' {
-			if raw || esc {
-				runes = append(runes, r)
-			}
-			esc = !esc
+	for i := 0; i < len(s); {
+		r, size := utf8.DecodeRuneInString(s[i:])
+		char := s[i : i+size]
+		i += size
+		if r == '\\' && !raw && !esc {
+			esc = true
 			continue
 		}
-		runes = append(runes, r)
+		// An escaped character is never a separator.
+		sep := !esc && cfg.ifsRune(r)
+		ws := sep && cfg.ifsWhitespace(r)
 		esc = false
+		switch {
+		case !sep:
+			if !infield {
+				fpos = append(fpos, pos{start: len(buf)})
+				infield = true
+			}
+		case infield:
+			fpos[len(fpos)-1].end = len(buf)
+			infield = false
+			wsDelim = ws
+		case ws:
+		case wsDelim:
+			wsDelim = false
+		default:
+			// A non-whitespace IFS character, along with its adjacent
+			// IFS whitespace, delimits a field even if it is empty.
+			fpos = append(fpos, pos{start: len(buf), end: len(buf)})
+		}
+		buf = append(buf, char...)
+		// Like bash, trailing IFS whitespace is trimmed even if escaped.
+		if !cfg.ifsWhitespace(r) {
+			trimEnd = len(buf)
+		}
 	}
 	if len(fpos) == 0 {
 		return nil
 	}
 	if infield {
-		fpos[len(fpos)-1].end = len(runes)
+		fpos[len(fpos)-1].end = len(buf)
 	}
 
-	switch {
-	case n == 1:
-		// The single field spans the whole line minus leading and trailing
-		// IFS whitespace; anything outside the fields is already IFS.
-		lo, hi := 0, len(runes)
-		for lo < fpos[0].start && cfg.ifsWhitespace(runes[lo]) {
-			lo++
-		}
-		for hi > fpos[len(fpos)-1].end && cfg.ifsWhitespace(runes[hi-1]) {
-			hi--
-		}
-		fpos[0].start, fpos[0].end = lo, hi
-		fpos = fpos[:1]
-	case n != -1 && n < len(fpos):
-		// combine to max n fields
-		fpos[n-1].end = fpos[len(fpos)-1].end
+	if n > 0 && n < len(fpos) {
+		// The last field takes the rest of the line, including its delimiters.
+		// It may be left empty if it consists of escaped IFS whitespace.
+		fpos[n-1].end = max(fpos[n-1].start, trimEnd)
 		fpos = fpos[:n]
 	}
 
 	fields := make([]string, len(fpos))
 	for i, p := range fpos {
-		fields[i] = string(runes[p.start:p.end])
+		fields[i] = string(buf[p.start:p.end])
 	}
 	return fields
 }
